@@ -66,10 +66,41 @@ fn render(rec: &LRec, base: NaiveDate) -> Vec<Transaction> {
         .collect()
 }
 
+/// The ledger's lines with 72 lines of the unrelated security ZPAD interleaved (see the call site).
+fn pad(rec: &LRec, txs: Vec<Transaction>, base: NaiveDate) -> Vec<Transaction> {
+    let used: std::collections::BTreeSet<i64> = rec.days.iter().copied().collect();
+    let hi = rec.days.iter().copied().max().unwrap_or(0);
+    let mut offs: Vec<i64> = Vec::new();
+    let mut k = -12i64;
+    while offs.len() < 72 { if !used.contains(&k) { offs.push(k); } k += 1; if k > hi + 400 { break; } }
+    let one = |x: i64| CurrencyAmount::new(Decimal::from(x), Currency::GBP);
+    let pads: Vec<Transaction> = offs.iter().enumerate().map(|(j, o)| {
+        let operation = match j {
+            30 => Operation::Split { ratio: Decimal::from(2) },
+            45 => Operation::Dividend { total_value: one(3), tax_paid: one(0) },
+            _ => Operation::Buy { amount: Decimal::from(1 + (j % 3) as i64), price: one(2 + (j % 5) as i64), fees: one((j % 2) as i64) },
+        };
+        Transaction { date: base + Duration::days(*o), ticker: "ZPAD".into(), operation }
+    }).collect();
+    // interleave: pad line j goes in front of ledger line (j * (n + 1) / 72); the rest go last; pad order itself is scrambled
+    let n = txs.len();
+    let mut out: Vec<Transaction> = Vec::with_capacity(n + pads.len());
+    let mut order: Vec<usize> = (0..pads.len()).collect();
+    order.sort_by_key(|j| (j * 37) % 72);
+    let mut pi = 0usize;
+    for (i, t) in txs.into_iter().enumerate() {
+        while pi < order.len() && pi * (n + 1) / 72 <= i { out.push(pads[order[pi]].clone()); pi += 1; }
+        out.push(t);
+    }
+    while pi < order.len() { out.push(pads[order[pi]].clone()); pi += 1; }
+    out
+}
+
 fn main() {
     let v: Vec<String> = std::env::args().collect();
     let (mut input, mut out, mut nbases) = (String::new(), String::new(), 1usize);
     let (mut cli, mut cli_every): (Option<String>, usize) = (None, 25);
+    let mut pad_every = 0usize;
     let mut i = 1;
     while i < v.len() {
         match v[i].as_str() {
@@ -78,6 +109,7 @@ fn main() {
             "--bases" => { nbases = v[i + 1].parse().unwrap_or(1); i += 1; }
             "--cli" => { cli = Some(v[i + 1].clone()); i += 1; }
             "--cli-every" => { cli_every = v[i + 1].parse().unwrap_or(25).max(1); i += 1; }
+            "--pad-every" => { pad_every = v[i + 1].parse().unwrap_or(0); i += 1; }
             _ => {}
         }
         i += 1;
@@ -111,8 +143,16 @@ fn main() {
         if rec.lines.iter().any(|l| l.2 == "SPLIT") { cnt.inc("with_splits"); }
         if rec.lines.iter().any(|l| l.2 == "CAPRETURN" || l.2 == "ACC") { cnt.inc("with_events"); }
         if rec.lines.iter().map(|l| l.1.as_str()).collect::<std::collections::BTreeSet<_>>().len() > 1 { cnt.inc("two_securities"); }
-        for base in &bases {
-            let txs = render(rec, *base);
+        // every pad_every-th behaviour is replayed once more inside a LONG file: 72 lines of an unrelated security
+        // (purchases, a split, a dividend; dated on days the ledger does not use, before, between and after its own
+        // days) are interleaved with the ledger's lines.  Securities are independent (OthersUntouched / ProjectLaw on the
+        // specification, the two-security alphabets of MC_Lines), so the prediction for the ledger's own securities is
+        // unchanged -- but every size threshold of the code (line count, lot count, index / cache / fast path) is crossed.
+        let mut variants: Vec<(NaiveDate, bool)> = bases.iter().map(|b| (*b, false)).collect();
+        if pad_every > 0 && case_no % pad_every == 0 { variants.push((bases[0], true)); }
+        for (base, padded) in &variants {
+            let padded = *padded;
+            let txs = if padded { cnt.inc("padded_runs"); pad(rec, render(rec, *base), *base) } else { render(rec, *base) };
             let date_of = |d: usize| *base + Duration::days(rec.days[d - 1]);
             let mut push = |prop: &str, kind: &str, detail: String| {
                 findings.push(Finding { prop: prop.into(), kind: kind.into(), case: case_no, detail, input: to_dsl(&txs), data: json!({}) });
@@ -125,7 +165,7 @@ fn main() {
             cnt.inc("executions");
             // the same lines, in the same order, dealt over TWO input files of the cgt-tool binary (first half, second half):
             // `report --format json a.cgt b.cgt` must print the library's report for the concatenation
-            if *base == bases[0] && case_no % cli_every == 0 {
+            if *base == bases[0] && !padded && case_no % cli_every == 0 {
                 if let Some(cli) = &cli {
                     let dir = std::env::temp_dir().join(format!("cgtv_lines_{}_{}", std::process::id(), case_no));
                     let _ = std::fs::create_dir_all(&dir);
